@@ -52,6 +52,7 @@ from .. import sims, util
 
 ID = "C12"
 LEVEL = "exploration"
+TECHNIQUE = "runtime monitoring: exact-arithmetic executions (integer fields, power-of-two prefactors) of the library kernels composed as the library composes them; identities demanded bitwise on the full impulse basis of one grid"
 TITLE = "Discrete vector-calculus identities hold exactly between the library's kernels"
 RULE = (
     "exhaustive: every unit impulse (each run separately) of a 9x10x11 grid in each of the 3 components of the "
